@@ -221,6 +221,13 @@ class C01(Prop):
 
     def judge(self, scn, res):
         out = ownership_violations(res)
+        calls_by_id = {c.id: c for c in res.calls}
+        for o in res.world.obs:
+            if o["oracle"] == "malformed-request":
+                # every request of this workload is well-formed, so the server can only see a malformed one if the
+                # client garbled it on the wire (e.g. re-sent part of a request on the same connection)
+                rec = calls_by_id.get(o["call"])
+                out.append(viol("request-garbled-on-the-wire", rec, disc=o.get("why"), line=repr(o.get("line"))[:80]))
         cfg = make_cfg(scn)
         ign = bool((scn["world"].get("client_kwargs") or {}).get("ignore_exc"))
         for rec in res.calls:
